@@ -517,9 +517,14 @@ func runC07(c *Ctx) {
 	c.Cases("b64", c.N(400, 3000), func(r *Rng, i int) {
 		shift := []int{0, 1, 2, 127, 128, 254, 255, r.Intn(256)}[r.Intn(8)]
 		n := c07Len(r, 3, big)
+		if i%16 == 5 {
+			// around the transform's own buffer limit (bufMax = 32 KiB of decoded bytes): Read takes a
+			// different branch above it
+			n = []int{24574, 24575, 24576, 24577, 32765, 32766, 32767, 32768, 32769, 40000, 65536, 98303, 98304, 98305}[r.Intn(14)]
+		}
 		payload := r.Bytes(n)
 		t := transform.B64(shift)
-		in := map[string]interface{}{"shift": shift, "payload": hx(payload)}
+		in := map[string]interface{}{"shift": shift, "len": n, "payload": hx(payload[:minC07(n, 4096)])}
 		var out, back bytes.Buffer
 		if err, pan := guard(func() error { return t.Write(append([]byte(nil), payload...), &out) }); err != nil || pan != "" {
 			c.Fail("roundtrip", "b64-write", fmt.Sprint(err, pan), in)
